@@ -384,10 +384,15 @@ def vary_names(decls, every=3, upper=True, raw=True, vis=True, hostile=True):
         # the spelling of a declared default (Corpus!DefForms): literal in several radixes / with a type suffix, or a named constant
         if d.get("def") and d.get("defform", "lit") == "lit":
             d["defform"] = ["lit", "const", "dec", "hexsuf", "const", "bin_", "decsuf", "const", "hexsuf_", "oct"][k % 10]
-        # arbitrary-int field types spelled through a path (the macro looks at the last segment)
+        # arbitrary-int field types and Option spelled through a path (the macro looks at the last segment)
         for j, f in enumerate(d["fields"]):
             if f["kind"] == "uarb":
                 f.setdefault("tyspell", ["", "arbitrary_int::", "::arbitrary_int::"][(k + j) % 3])
+            if f["kind"] == "optenum":
+                f.setdefault("optspell", ["", "::core::option::"][(k + j) % 2])
+        # a named default whose constant is called like one of the macro's own items
+        if d.get("def"):
+            d.setdefault("defname", ["DEFVAL", "DEFAULT_RAW_VALUE", "ZERO", "RESET", "DEFAULT", "START"][k % 6])
         # restricted visibility of the struct (and its enums): still visible to the glue, which lives in a sibling module
         if vis:
             d.setdefault("vis", {1: "pub(crate) ", 3: "pub(super) ", 4: "pub(in crate) "}.get(k % 6, "pub "))
@@ -413,7 +418,7 @@ def vary_names(decls, every=3, upper=True, raw=True, vis=True, hostile=True):
             elif f["list"]:
                 hazards = (["CLEAR_MASK"] if upper else []) + ["temp"]
             else:
-                hazards = ["field_value", "extracted_bits"] if (rot + j) % 2 == 0 else []
+                hazards = ["field_value", "extracted_bits"] if (rot + j) % 4 == 0 else []
             nm = next((h for h in hazards if h not in used), None)
             if nm is None:
                 nm = next((pool[(rot + j + t) % len(pool)] for t in range(len(pool)) if pool[(rot + j + t) % len(pool)] not in used), None)
